@@ -13,6 +13,7 @@ import (
 	"slices"
 	"strings"
 	"sync"
+	"time"
 
 	"github.com/c2FmZQ/ech"
 
@@ -37,6 +38,16 @@ type srvSeen struct {
 
 func genC19(env *core.Env, emit func(core.Case)) {
 	r := env.Rng
+	// an injected clock, so that cached DNS answers can be made to expire
+	var clockMu sync.Mutex
+	var clockOff time.Duration
+	clockBase := time.Date(2026, 1, 1, 0, 0, 0, 0, time.UTC)
+	ech.VerifSetClock(func() time.Time {
+		clockMu.Lock()
+		defer clockMu.Unlock()
+		return clockBase.Add(clockOff)
+	})
+	defer ech.VerifSetClock(nil)
 	pk := getPKI()
 	hosts := []string{"a.example", "b.example", "c.example"}
 	cert := pk.leaf(0, false, hosts...)
@@ -183,6 +194,7 @@ func genC19(env *core.Env, emit func(core.Case)) {
 		path := ""
 		remoteByOrigin := map[string]string{}
 		nreq := 1 + r.IntN(3)
+		lastH3URL, lastH3Host := "", ""
 		for q := 0; q < nreq; q++ {
 			host := hosts[r.IntN(len(hosts))]
 			scheme := []string{"https", "https", "http"}[r.IntN(3)]
@@ -304,6 +316,7 @@ func genC19(env *core.Env, emit func(core.Case)) {
 			sv := append([]srvSeen{}, seen...)
 			mu.Unlock()
 			if obsC["h3"] == "1" {
+				lastH3URL, lastH3Host = rawURL, host
 				path += "h3,"
 			} else if obsC["plain"] == "1" {
 				path += "plain-refused,"
@@ -359,6 +372,39 @@ func genC19(env *core.Env, emit func(core.Case)) {
 					return hs2(d)
 				}()), Kind: 'M', Want: "match", Note: "addresses dialled (all attempts failing), each with its ECH config list == targets of the filtered record set"})
 			}
+		}
+		// the origin changes what it publishes (h3 is withdrawn: one record, h2 only) and the cached answers
+		// expire: the next request to an origin that was served over HTTP/3 a moment ago follows the records
+		// as they are NOW
+		if lastH3URL != "" && !strings.Contains(lastH3URL, ":8443") && !strings.Contains(lastH3URL, ":80") {
+			u2 := zoneh.Universe{}
+			for k, v := range u {
+				u2[k] = v
+			}
+			u2[zoneh.Key{Name: lastH3Host, Type: 65}] = zoneh.Resp{Answers: []zoneh.Ans{{Owner: lastH3Host, Type: 65, TTL: 60,
+				HTTPS: &zoneh.HTTPS{Priority: 1, ALPN: []string{"h2"}, NoDef: true, V4: [][]byte{{10, 7, 9, 9}}}}}}
+			zs.Set(u2)
+			clockMu.Lock()
+			clockOff += 3 * time.Hour
+			clockMu.Unlock()
+			dmu.Lock()
+			h3seen = nil
+			dcalls = nil
+			enumerate = false
+			dmu.Unlock()
+			req, _ := http.NewRequest("GET", lastH3URL, nil)
+			resp, _ := client.Do(req)
+			if resp != nil {
+				io.ReadAll(resp.Body)
+				resp.Body.Close()
+			}
+			dmu.Lock()
+			if len(h3seen) > 0 && w == "" {
+				w = fmt.Sprintf("%s: HTTP/3 used although the origin's records (re-fetched after expiry) no longer offer h3; earlier request to the same origin went over h3", lastH3URL)
+			}
+			dmu.Unlock()
+			zs.Set(u)
+			path += "h3-withdrawn,"
 		}
 		// drop the placeholder plan ops (kept simple: remove ops with empty Want)
 		var ops2 []core.Op
